@@ -57,6 +57,14 @@ def expected_value(v, ann):
     if org in (dict, typing.Dict) and isinstance(v, dict):
         return {k: expected_value(x, typing.get_args(ann)[1]) for k, x in v.items()}
     if isclass(ann) and issubclass(ann, StringSerializable) and isinstance(v, str):
+        # INDEPENDENT of the package's own parser for the three basic pseudo-types: what the original string means is
+        # computed with the builtins, then wrapped into the class only to have a value of the right type to compare with
+        if ann.__name__ == "IntString":
+            return ann(int(v))
+        if ann.__name__ == "FloatString":
+            return ann(float(v))
+        if ann.__name__ == "BooleanString":
+            return ann(v.lower() == "true")
         return ann.to_internal_value(v)
     return v
 
@@ -118,7 +126,10 @@ def oracle(samples, o):
                 return f"constructing Root from sample {i} raises {type(e).__name__}: {str(e)[:160]}", tags, terms
             for k, v in s.items():
                 lab = prepare_label(k, convert_unicode=oo["unidecode"], to_snake_case=True)
-                got = getattr(inst, lab)
+                try:
+                    got = getattr(inst, lab)
+                except AttributeError as e:
+                    return f"sample {i}: the constructed object has no attribute {lab!r} for key {k!r}: {e}", set(), terms
                 t = root_fields[k]
                 if oo["converters"] and has_unique_path(t):
                     want = expected_value(v, hints[lab])
